@@ -47,6 +47,9 @@ func genCliTree(r *Rng, depth int, n *int) []*cliFile {
 	for i := 0; i < k; i++ {
 		*n++
 		base := fmt.Sprintf("%c%d", 'a'+r.Intn(4), r.Intn(10))
+		if r.Chance(1, 6) {
+			base += Pick(r, []string{"%20x", "%s", " sp", "%", "é", "%d%v"})
+		}
 		if used[base] {
 			continue
 		}
@@ -277,6 +280,18 @@ func GenCliConcFamily(w *Writer, r *Rng, t Tier) error {
 		}
 		cnt := 0
 		tree := genCliTree(cr, 3, &cnt)
+		if i%4 == 0 {
+			// blocks larger than any write buffer: a block must still arrive in one piece
+			var big strings.Builder
+			big.WriteString("<r>")
+			for k := 0; k < 9000; k++ {
+				fmt.Fprintf(&big, "<a>item%06d</a>", k)
+			}
+			big.WriteString("</r>")
+			for k := 0; k < 4; k++ {
+				tree = append(tree, &cliFile{Name: fmt.Sprintf("zbig%d.xml", k), Content: big.String()})
+			}
+		}
 		// more files: duplicate the tree under several directories
 		big := []*cliFile{{Name: "d1", IsDir: true, Kids: tree}, {Name: "d2", IsDir: true, Kids: genCliTree(cr, 2, &cnt)}, {Name: "d3", IsDir: true, Kids: genCliTree(cr, 2, &cnt)}}
 		if err := writeCliTree(root, big); err != nil {
